@@ -536,12 +536,53 @@ def rule_v(F):
     return sc.rule_innermost(F, "C01.V", "compiler::Compiler::resolve_var", "locals", "C01/V/resolve_var")
 
 
+def rule_g(F):
+    """C01.G: reading a global that was never set has one outcome. Setting a global grows the table of globals up to its id
+    (`resize`), which creates entries for ids that were never set; if those fillers are ordinary values (the table is a
+    Vec<Value>), an unset global with a smaller id reads as that value while the same read fails with VarNotFound when no
+    higher id has been set yet. So: when some function resizes `RuntimeData.global_vars`, its element type is not a bare
+    Value (the filler is distinguishable from anything a script can store), and the read path tests it."""
+    from cao.facts import DefUse, callee_names, op_local
+    from cao import mirutil as mu
+    res = []
+    adt = F.adt("vm::runtime::RuntimeData")
+    fld = next((x for x in adt["variants"][0]["fields"] if x["name"] == "global_vars"), None)
+    if fld is None:
+        raise AnchorMissing("RuntimeData.global_vars")
+    elem = fld["ty"]
+    resizers = []
+    for f in F.fns:
+        if not f.mir or not f.path.startswith("vm::"):
+            continue
+        du = DefUse(f)
+        for bi, t in mu.calls(f):
+            if any(n.rsplit("::", 1)[-1] in ("resize", "resize_with", "extend", "extend_from_slice") and "Vec" in n for n in callee_names(t["func"])) and t["args"]:
+                a0 = op_local(t["args"][0])
+                if a0 is not None and mu.ref_of_field_chain(f, du, a0, ["global_vars"]):
+                    resizers.append((f, t))
+    key = "C01/G/global-table/gaps-are-distinguishable-from-values"
+    if not resizers:
+        res.append(ok("C01.G", key, "", "no function grows the table of globals over ids that were not set"))
+        return res
+    f, t = resizers[0]
+    bare = elem.replace(" ", "") in ("std::vec::Vec<value::Value>", "Vec<value::Value>", "Vec<Value>")
+    if bare:
+        res.append(bad("C01.G", key, f.loc(t.get("ln")),
+                       "%s grows RuntimeData.global_vars (%s) up to the id being set and fills the gap with ordinary values: a global with a "
+                       "smaller id that was never set then reads as that filler, while the same read fails with VarNotFound as long as no "
+                       "higher id has been set - the outcome of a program depends on how unrelated globals were numbered" % (f.name, elem)))
+    else:
+        res.append(ok("C01.G", key, f.loc(t.get("ln")), "the table holds %s: a gap is not a value" % elem))
+    return res
+
+
 def _c19_rule_x(F):
     from rules import c19 as _c19
     return _c19.rule_x(F)
 
 
 RULES = [
+    Rule("C01.G", rule_g, 1, "an unset global is distinguishable from every value a script can store"),
     Rule("C01.Q", shared(_c19_rule_x, "C19.X", "C01.Q"), 2, "Equals / NotEquals on numbers is exact equality (shared with C19.X)"),
     Rule("C01.I", rule_i, 5, "loop locals are stored into their slots before the loop code reads them"),
     Rule("C01.T", rule_t, 36, "operator cards -> like-named instruction -> like operator"),
